@@ -17,6 +17,22 @@ def loss_case(draw, kinds=KINDS, weights=True, target_param="subset-ordered", ta
     """target_param: None | 'subset-ordered' (subset in declared order) | 'any-order' (subset, generated order)."""
     m = draw(S.ode_model(max_states=max_states, additive_params=additive, families=families, allow_time=allow_time))
     su = draw(S.ode_setup(m, n_times=n_times, t_max=5.0))
+    # container / dtype forms in which a user may legitimately hand over the same numbers
+    forms = {"t": draw(st.sampled_from(["float_array", "float_array", "list", "int_array", "int_list"])),
+             "y": draw(st.sampled_from(["float_array", "float_array", "list", "int_array"])),
+             "x0": draw(st.sampled_from(["list", "list", "array", "tuple"])),
+             "theta": draw(st.sampled_from(["list", "list", "array"]))}
+    if forms["t"].startswith("int"):
+        # observation times that are whole numbers (day numbers) while the initial time may be fractional
+        t0 = draw(st.sampled_from([su["t0"], su["t0"], 0.5, 2.5]))
+        steps = [draw(st.sampled_from([1, 1, 1, 2])) for _ in su["grid_rel"]][:5]
+        while len(steps) < n_times[0]:
+            steps.append(1)
+        base, acc, rel = math.floor(t0), 0, []
+        for k in steps:
+            acc += k
+            rel.append(float((base + acc) - t0))
+        su = dict(su, t0=t0, grid_rel=rel)
     names = ir.state_names(m)
     kind = draw(st.sampled_from(list(kinds)))
     k_obs = draw(st.integers(1, len(names)))
@@ -52,7 +68,7 @@ def loss_case(draw, kinds=KINDS, weights=True, target_param="subset-ordered", ta
     theta_eval = [S.sig(v * draw(st.sampled_from([1.0, 0.8, 1.25, 0.6, 1.5])), 4) for v in su["theta"]]
     x0_eval = [S.sig(v * draw(st.sampled_from([1.0, 1.0, 0.9, 1.2])), 4) for v in su["x0"]]
     return {"model": m, "setup": su, "loss": kind, "obs": obs, "obs_form": obs_form, "spread": spread, "weights": w,
-            "target_param": tp, "target_state": ts, "theta_eval": theta_eval, "x0_eval": x0_eval,
+            "target_param": tp, "target_state": ts, "theta_eval": theta_eval, "x0_eval": x0_eval, "forms": forms,
             "noise": draw(st.sampled_from([0.0, 0.0, 0.05, 0.2])), "noise_phase": draw(st.integers(0, 1000))}
 
 
@@ -119,7 +135,26 @@ def build(case, y):
         kw["target_param"] = list(tp)
     if case["target_state"] is not None:
         kw["target_state"] = list(case["target_state"])
-    obj = cls(theta0, model, list(su["x0"]), su["t0"], times, yy, state_name, **kw)
+    forms = case.get("forms") or {}
+    t_arg, y_arg, x0_arg, th_arg = times, yy, list(su["x0"]), theta0
+    tf = forms.get("t", "float_array")
+    if tf == "list":
+        t_arg = [float(v) for v in times]
+    elif tf in ("int_array", "int_list") and np.all(times == np.rint(times)):
+        t_arg = np.rint(times).astype(int) if tf == "int_array" else [int(v) for v in np.rint(times)]
+    yf = forms.get("y", "float_array")
+    if yf == "list":
+        y_arg = np.asarray(yy).tolist()
+    elif yf == "int_array" and np.all(np.asarray(yy) == np.rint(yy)):
+        y_arg = np.rint(yy).astype(int)
+    xf = forms.get("x0", "list")
+    if xf == "array":
+        x0_arg = np.array(su["x0"], float)
+    elif xf == "tuple":
+        x0_arg = tuple(su["x0"])
+    if forms.get("theta") == "array":
+        th_arg = np.array(theta0, float)
+    obj = cls(th_arg, model, x0_arg, su["t0"], t_arg, y_arg, state_name, **kw)
     return model, obj
 
 
